@@ -107,6 +107,15 @@ def distribute(
                 )
                 break
 
+    # The computations placed above count against the capacity of their agent.
+    for agent in agentsdef:
+        fixed_footprint = sum(f for a, f in fixed_mapping.values() if a == agent.name)
+        if fixed_footprint > agent.capacity:
+            raise ImpossibleDistributionException(
+                f"Impossible Distribution, not enough capacity on {agent.name} "
+                f"for the computations that must be hosted on it"
+            )
+
     # Sort computation by footprint, but add a random element to avoid sorting on names
     computations = [
         (computation_memory(n), n, None, random.random())
